@@ -269,7 +269,7 @@ func c09Run(t *testing.T, run *Run, sc c09Scenario) {
 		run.Count("probes_observed", len(pl))
 		var prevStart, prevEnd time.Duration
 		for i, p := range pl {
-			ok := p.Ended && p.Accepted && p.Status >= 200 && p.Status <= 299
+			ok := p.Passed(c09ProbeTO)
 			at := p.End
 			if p.Status >= 200 && p.Status <= 299 && !ok { // slower than the probe timeout: the prober gave up
 				at = p.Start + c09ProbeTO
